@@ -132,6 +132,48 @@ Proof.
       * destruct (slookup s_under locals) as [[|y e]|]; try discriminate; reflexivity.
 Qed.
 
+Lemma In_sset {V} k (v : V) m x : In x (sset k v m) -> x = (k, v) \/ In x m.
+Proof.
+  induction m as [|[k' v'] m IH]; cbn; [intros [<-|[]]; now left|].
+  destruct (str_eqb k k'); cbn; intros [<-|H]; auto. destruct (IH H); auto.
+Qed.
+
+Lemma ctx_fold_in (key : str -> str) exps : forall m0 p e,
+  In (p, e) (fold_left (fun m e => sset (key e) e m) exps m0) -> In (p, e) m0 \/ (In e exps /\ p = key e).
+Proof.
+  induction exps as [|x exps IH]; intros m0 p e; cbn [fold_left]; [now left|].
+  intros H. destruct (IH _ _ _ H) as [H1|[H1 H2]].
+  - destruct (In_sset _ _ _ _ H1) as [E|H3]; [injection E as -> ->; right; split; [now left | reflexivity] | now left].
+  - right. split; [now right | assumption].
+Qed.
+
+Lemma ctx_fold_keep (key : str -> str) exps p : forall m0,
+  (forall e', In e' exps -> key e' <> p) ->
+  slookup p (fold_left (fun m e => sset (key e) e m) exps m0) = slookup p m0.
+Proof.
+  induction exps as [|x exps IH]; intros m0 H; cbn [fold_left]; [reflexivity|].
+  rewrite IH; [|intros e' He'; apply H; now right].
+  apply slookup_set_other. intros E. apply (H x); [now left | now symmetry].
+Qed.
+
+Lemma ctx_fold_last (key : str -> str) exps p e : forall m0,
+  In e exps -> key e = p -> (forall e', In e' exps -> key e' = p -> e' = e) ->
+  slookup p (fold_left (fun m e => sset (key e) e m) exps m0) = Some e.
+Proof.
+  induction exps as [|x exps IH]; intros m0 Hin Hk Hu; [destruct Hin|]. cbn [fold_left].
+  destruct (existsb (fun e' => str_eqb (key e') p) exps) eqn:Ex.
+  - apply existsb_exists in Ex. destruct Ex as (e2 & He2 & Hk2). apply str_eqb_eq in Hk2.
+    assert (e2 = e) by (apply Hu; [now right | exact Hk2]). subst e2.
+    apply IH; [exact He2 | exact Hk | intros e' He' Hk'; apply Hu; [now right | exact Hk']].
+  - assert (Hno : forall e', In e' exps -> key e' <> p).
+    { intros e' He' Hk'. assert (Ht : existsb (fun e' => str_eqb (key e') p) exps = true).
+      { apply existsb_exists. exists e'. split; [exact He' | now apply str_eqb_eq]. }
+      congruence. }
+    rewrite (ctx_fold_keep key exps p _ Hno).
+    destruct Hin as [->|Hin]; [|exfalso; exact (Hno e Hin Hk)].
+    rewrite Hk. apply slookup_set_same.
+Qed.
+
 Lemma ns_step_event op w T :
   nsw_inv w -> p2e_in (nst (fst (ns_step AliasCopy op w))) T ->
   spec_event T (HNs op, HONs (snd (ns_step AliasCopy op w))) = true.
@@ -151,6 +193,18 @@ Proof.
     { apply sIn_lookup; [apply nsinv_p2e_nodup, Hinv | exact Hin]. }
     rewrite (HT _ _ E). apply ostr_eqb_some.
   - cbn [fst snd]. intros _. destruct (nth_error (handles w) h); reflexivity.
+  - reflexivity.
+  - cbn [fst snd nst spec_event]. intros HT. apply forallb_forall. intros [p e] Hin. cbn [fst snd]. unfold maps_to.
+    assert (E : slookup p (p2e (mem (nst w))) = Some e).
+    { apply sIn_lookup; [apply nsinv_p2e_nodup, Hinv | exact Hin]. }
+    rewrite (HT _ _ E). apply ostr_eqb_some.
+  - cbn [fst snd nst spec_event]. intros HT. apply forallb_forall. intros [p e] Hin. cbn [fst snd].
+    unfold ctx_of in Hin. destruct (ctx_fold_in _ _ _ _ _ Hin) as [[]|[He Hp]].
+    apply andb_true_iff. split.
+    + apply existsb_exists. exists e. split; [exact He | apply str_eqb_refl].
+    + destruct p as [|c p]; [reflexivity|]. unfold ctx_key, get_prefix in Hp.
+      destruct (slookup e (e2p (mem (nst w)))) as [q|] eqn:E; [|discriminate]. subst q.
+      destruct Hinv as [[_ Hb] _]. apply Hb in E. unfold maps_to. rewrite (HT _ _ E). apply ostr_eqb_some.
   - reflexivity.
 Qed.
 
@@ -657,6 +711,66 @@ Section WorldFixed.
       cbn [ns_step] in Es. injection Es as _ Eo. unfold expand_curie in Eo. rewrite Hu in Eo. discriminate.
   Qed.
 
+  (** no stale context *)
+  Definition kinv (w : world) (known : list (str * str)) : Prop :=
+    forall p e, In (p, e) known -> slookup p (p2e (mem (nst (wns w)))) = Some e.
+
+  Lemma kinv_mono w w' known : wext w w' -> kinv w known -> kinv w' known.
+  Proof. intros [E _] H p e Hin. apply E, H, Hin. Qed.
+
+  Lemma dsctx_fresh st exps p e :
+    st_inv st -> slookup p (p2e (mem st)) = Some e -> In e exps -> has_mapping (ctx_of exps st) p e = true.
+  Proof.
+    intros Hinv Hp Hin. unfold has_mapping, ctx_of.
+    pose proof Hinv as [[Hk Hb] _].
+    assert (Hkey : ctx_key e st = p) by (unfold ctx_key, get_prefix; now rewrite (proj1 (Hb p e) Hp)).
+    assert (Hne : p <> []).
+    { intros ->. apply slookup_In in Hp. apply (in_map fst) in Hp. cbn in Hp. rewrite Hk, in_map_iff in Hp.
+      destruct Hp as (i & Hi & _). unfold ns_name, s_ns in Hi. discriminate. }
+    rewrite (ctx_fold_last (fun e => ctx_key e st) exps p e [] Hin Hkey); [apply str_eqb_refl|].
+    intros e' _ Hk'. unfold ctx_key, get_prefix in Hk'.
+    destruct (slookup e' (e2p (mem st))) as [q|] eqn:E; [|congruence]. subst q.
+    apply (nsinv_e2p_inj (mem st) e' e p); [apply Hinv | exact E | now apply Hb].
+  Qed.
+
+  Lemma dsctx_run ops : forall w known,
+    winv w -> kinv w known ->
+    dsctx_ok known (ns_events (combine ops (snd (wrun v_fixed L ops w)))) = true.
+  Proof.
+    induction ops as [|op ops IH]; intros w known Hinv Hk; cbn [wrun]; [reflexivity|].
+    destruct (wstep_strong op w Hinv) as (H1 & H2 & _ & _).
+    destruct (wstep v_fixed L op w) as [w1 o] eqn:Es. cbn [fst] in *.
+    pose proof (kinv_mono _ _ _ H2 Hk) as Hk1.
+    specialize (IH w1). destruct (wrun v_fixed L ops w1) as [w2 os] eqn:Er. cbn [snd combine] in *.
+    assert (Hdef : dsctx_ok known (ns_events (combine ops os)) = true) by (apply (IH known H1 Hk1)).
+    unfold ns_events. cbn [flat_map]. fold (ns_events (combine ops os)).
+    destruct op; try (cbn [app]; exact Hdef).
+    cbn [wstep] in Es. change (v_alias v_fixed) with AliasCopy in Es.
+    destruct (ns_step AliasCopy o0 (wns w)) as [n r] eqn:En. injection Es as <- <-. cbn [app].
+    destruct Hinv as (Hn & _ & _ & _).
+    destruct o0; cbn [ns_step] in En.
+    - (* NAssert *)
+      pose proof (assert_prefix_spec e (nst (wns w)) Hn) as Ha. destruct (assert_prefix e (nst (wns w))) as [st' p].
+      destruct Ha as (_ & Hpe & _).
+      injection En as <- <-. cbn [dsctx_ok]. apply (IH ((p, e) :: known) H1).
+      intros p' e' [E|Hin]; [injection E as <- <-; cbn; exact Hpe | apply Hk1, Hin].
+    - destruct (compact u (nst (wns w))). injection En as <- <-. destruct o; cbn [opt_out dsctx_ok]; exact Hdef.
+    - destruct (ns_identifier v locals (nst (wns w))). injection En as <- <-. destruct o; cbn [opt_out dsctx_ok]; exact Hdef.
+    - injection En as <- <-. destruct (expand_curie c (nst (wns w))); cbn [opt_out dsctx_ok]; exact Hdef.
+    - injection En as <- <-. destruct (get_prefix e (nst (wns w))); cbn [opt_out dsctx_ok]; exact Hdef.
+    - injection En as <- <-. cbn [dsctx_ok]. exact Hdef.
+    - injection En as <- <-. destruct (nth_error (handles (wns w)) h); cbn [dsctx_ok]; exact Hdef.
+    - injection En as <- <-. cbn [dsctx_ok]. exact Hdef.
+    - injection En as <- <-. cbn [dsctx_ok]. exact Hdef.
+    - (* NDsCtx *)
+      injection En as <- <-. cbn [dsctx_ok]. rewrite Hdef, andb_true_r.
+      apply forallb_forall. intros [p e] Hin. cbn [fst snd].
+      destruct (existsb (str_eqb e) exps) eqn:Ex; [|reflexivity]. cbn [negb orb].
+      apply existsb_exists in Ex. destruct Ex as (e' & He' & Heq). apply str_eqb_eq in Heq. subst e'.
+      apply dsctx_fresh; [exact Hn | apply Hk, Hin | exact He'].
+    - injection En as <- <-. cbn [dsctx_ok]. exact Hdef.
+  Qed.
+
   Lemma winv_empty : winv (w_empty L).
   Proof.
     split; [apply nsw_inv_init|]. split; [split; [constructor | reflexivity]|].
@@ -702,7 +816,8 @@ Proof.
     destruct (wrun_strong L_go HL (c_ops c) w0 Hw0) as (Hwf & _ & Hd & Hev).
     rewrite H3, Nat.eqb_refl, Hd. cbn [andb].
     rewrite (snapshot_wrun L_go (c_ops c) w0 []); [|unfold w0; rewrite setup_handles; reflexivity | constructor].
-    rewrite (known_run L_go HL (c_ops c) w0 [] Hw0); [|intros c0 []]. cbn [andb].
+    rewrite (known_run L_go HL (c_ops c) w0 [] Hw0); [|intros c0 []].
+    rewrite (dsctx_run L_go HL (c_ops c) w0 [] Hw0); [|intros p0 e0 []]. cbn [andb].
     destruct (ends_dump_split _ Hend) as [ops0 E].
     rewrite E in *. rewrite wrun_app in *. cbn [fst snd wrun wstep] in *.
     rewrite last_dump_app. cbn [last_dump].
